@@ -11,6 +11,8 @@ CONSTANTS
   FixEmptyChunk = TRUE
   FixStss = TRUE
   FixTkhd = TRUE
-INVARIANTS OutputWellFormed OutputDecodes EmitCase
+  FixFlushOrder = TRUE
+  MaxFaults = 0
+INVARIANTS NoPanic OutputWellFormed OutputDecodes EmitCase
 PROPERTY RejectsInvisible
 CHECK_DEADLOCK FALSE
